@@ -58,21 +58,22 @@ CHECKS.update({
 })
 # additions of session 3 (after the seeded rounds): appended to the level text
 EXTRA = {
- "C01": " Lexemes are random over the whole lexical grammar (escape families, line continuations, keyword-like and long identifiers, all numeric shapes, CR/trailing blanks in backtick strings); layouts include ';' on the next line.",
+ "C12": " A fourth of the corrupted texts is parsed by a strict builder that served tolerant parsers before, another fourth by a strict builder whose lexer builder is shared with a tolerant parser builder.",
+ "C01": " Lexemes are random over the whole lexical grammar (escape families, line continuations, keyword-like and long identifiers, all numeric shapes, CR/trailing blanks in backtick strings); layouts include ';' on the next line. A control-flow-shapes stratum runs nested brace-less if/else chains (dangling else in every position), loops, blocks and early returns under all 16 assignments of four conditions.",
  "C02": " Lexemes are random over the whole lexical grammar, strings compared by meaning (independent decoder, acorn cross-check); layouts include ';' on the next line; trees carry explicit redundant parentheses.",
- "C03": " Every 4th random tree is additionally edited in place after it was printed (operator of a binary node replaced on the ast nodes) and must round-trip again.",
- "C04": " A third of the stacks is installed in two stages around a first Build (later parsers must see the later interceptors); by a per-step coin statement interceptors parse the statement themselves through the public Parse*Statement API and re-entrant expression interceptors use the specific public prefix functions.",
- "C05": " Histories contain builds in mid-history, names that are keywords / operator spellings, built-in tokens in roles they lack (accepted once, refused on repeat), and a minimal use of every accepted operator afterwards.",
+ "C03": " Every 4th random tree is additionally edited in place after it was printed (operator of a binary node replaced on the ast nodes) and must round-trip again. A literal-operands stratum (exhaustive) puts every kind of primary expression (number shapes, strings, single- and multi-line backtick strings, array/object literals, function expressions) into every operand slot of every operator kind; every second group of cases prints through long-lived Compiler values.",
+ "C04": " A third of the stacks is installed in two stages around a first Build (later parsers must see the later interceptors); by a per-step coin statement interceptors parse the statement themselves through the public Parse*Statement API and re-entrant expression interceptors use the specific public prefix functions. Further strata run all clauses on builders that carry registered prefix/infix/postfix operators (levels 2-13; step sequences compared with the text in which built-in operators of the same level stand in), on inputs nested 40-1000 deep, and on large programs.",
+ "C05": " Histories contain builds in mid-history, names that are keywords / operator spellings, built-in tokens in roles they lack (accepted once, refused on repeat), and a minimal use of every accepted operator afterwards. Every random mixed tree is also parsed through 1-3 expression interceptors that pass through or continue the expression themselves (ParseRemainingExpression).",
  "C06": " Programs use random lexemes (escapes, line continuations, CR in backtick strings), ';' on the next line and tree-level redundant parentheses.",
  "C07": " Further strata: random code-point escapes in concatenations, literals in other positions (object key, computed key, array element, argument, operand), adjacent string literals under '+' whose texts could merge into a longer escape, CR / CRLF / U+2028 inside backtick strings.",
  "C08": " Generated positions follow the Source Map line convention (LF, CRLF, lone CR); string lexemes are linked by meaning; programs use random lexemes incl. line continuations and CR in backtick strings.",
  "C09": " Advanced strings may end in a lone CR or be exactly \"\\r\"; only an LF directly continuing such a CR in the next advanced string is not generated.",
  "C10": " Inputs include BOM / hashbang / NUL starts, Unicode spaces and line terminators, form feed / vertical tab, numeric separators.",
  "C11": " On every second case ParseProgram is called a second time on the same parser and the contract is checked again.",
- "C13": " Half of the tolerant cases are repeated with a plugin statement keyword (`unless`, parsed through the public API into the `while` node) as the fused statement.",
- "C14": " Job results include the ids and display forms of the registered token types; half of the builders in the sequential histories are configured in stages with parsers built in between.",
- "C15": " Programs carry tree-level redundant parentheses (statements beginning with '((').",
- "C16": " Half of the parses run a second parser of the same builder to completion inside an interceptor; half use interceptors that parse statements through the public API; a deep-nesting stratum goes to 128 (thorough 500) nested constructs.",
+ "C13": " Half of the tolerant cases are repeated with a plugin statement keyword (`unless`, parsed through the public API into the `while` node) as the fused statement. Smart texts carry comments and blank lines; the builder is reconfigured by calling only the setter whose option changes.",
+ "C14": " Job results include the ids and display forms of the registered token types; half of the builders in the sequential histories are configured in stages with parsers built in between. Compilers created from one option list the caller goes on using keep their configuration; handed-out results are re-read after later compilations.",
+ "C15": " Programs carry tree-level redundant parentheses (statements beginning with '(('). A third of the sources has no trailing line break; one in six leaves blocks open and is parsed in tolerant mode; every second group of cases prints through long-lived Compiler values.",
+ "C16": " Half of the parses run a second parser of the same builder to completion inside an interceptor; half use interceptors that parse statements through the public API; a deep-nesting stratum goes to 128 (thorough 500) nested constructs. A third of the programs contain statements that an interceptor strips (returns nil); the outermost function may lie below 40-200 blocks; half of the malformed inputs are parsed with interceptors installed.",
 }
 REASONS_PENDING = "check under construction in this round (see DESIGN.md); not claimed yet"
 def main():
